@@ -3,8 +3,11 @@ package trzsz
 import (
 	"bytes"
 	"fmt"
+	"os"
+	"path/filepath"
 	"regexp"
 	"strings"
+	"time"
 )
 
 // vC06Relay: the trigger detector in relay mode (inside and outside tmux) in front of a client-mode detector,
@@ -123,4 +126,47 @@ func vC06Relay(rc *runCtx) {
 		}
 	}
 	rc.res.Nontrivial = true
+}
+
+// vC06RelayCC: whole transfers where the server's pane belongs to a tmux in control mode behind one or two
+// relays, all with tunnel connectors. Every party can reach ports on the next machine only, so the one transfer the
+// trigger announces runs only if each relay takes the framed trigger, puts its own port in it and marks it as
+// relayed. Nothing may ever be typed into tmux's command channel.
+func vC06RelayCC(rc *runCtx) {
+	tp := rc.tape
+	cfg := vDrawConfig(tp, false)
+	cfg.timeout = 20
+	cfg.trigVersion = ""
+	cfg.protocol = 0
+	cfg.tunnel = true
+	cfg.srvTmux = "control"
+	cfg.relays = 1 + tp.Draw("c06cc.relays", 2)
+	for i := 0; i < cfg.relays; i++ {
+		cfg.relayTmux = append(cfg.relayTmux, []string{"", "normal"}[tp.Pick("c06cc.rtmux", 3, 1)])
+	}
+	src := filepath.Join(rc.dir, "src")
+	dst := filepath.Join(rc.dir, "dst")
+	os.MkdirAll(dst, 0755)
+	spec := vGenSources(rc, src, 2, cfg.dirMode, 60000, !cfg.overwrite)
+	o := cfg.opts()
+	o.srcPaths, o.dstDir = spec.paths, dst
+	o.srvCCFrame = true
+	o.profile = transportProfile{segPm: 200, coalPm: 100, latPm: 300, latMax: 20 * time.Millisecond}
+	o.simCap = 10 * time.Minute
+	rc.res.ClassKey = "relaycc " + cfg.key()
+	rc.res.Scenario["config"] = cfg.key()
+	rc.res.Scenario["flags"] = strings.Join(o.flags, " ")
+	before := vSnapshot(dst)
+	x := newXferWorld(rc, o)
+	x.start()
+	rc.w.Run(x.finished)
+	rep := x.report()
+	if len(x.ccTyped) > 0 {
+		rc.violate("relay", "C06:control-mode-typed", "with the server's pane in tmux control mode behind %d relay(s) with tunnel connectors, %s was typed into tmux's command channel: the framed trigger did not start the one tunnel transfer it announces", cfg.relays, vQuote(x.ccTyped, 100))
+		return
+	}
+	vCheckFidelity(rc, x, rep, before, true)
+	if rc.res.Class == "ok" && !rep.tunnelUsed {
+		rc.violate("relay", "C06:control-mode-no-tunnel", "the transfer announced by a control-mode framed trigger did not run through the tunnel")
+	}
 }
